@@ -1858,6 +1858,56 @@ func c14freshSlice(v ssa.Value, seen map[ssa.Value]bool) bool {
 	return false
 }
 
+// c14neverNil: the slice value is non-nil whatever the length of its source
+// (make, append onto a non-nil slice, Clone of a sub-slice, local array slice).
+func c14neverNil(v ssa.Value, seen map[ssa.Value]bool) bool {
+	v = c14strip(resolve(v))
+	if seen[v] {
+		return true
+	}
+	seen[v] = true
+	switch w := v.(type) {
+	case *ssa.MakeSlice, *ssa.Alloc:
+		return true
+	case *ssa.Slice:
+		if _, isPtr := w.X.Type().Underlying().(*types.Pointer); isPtr {
+			return true // slice of an array
+		}
+		return c14neverNil(w.X, seen)
+	case *ssa.Phi:
+		for _, e := range w.Edges {
+			if !c14neverNil(e, seen) {
+				return false
+			}
+		}
+		return true
+	case *ssa.Call:
+		if isBuiltinCall(w, "append") {
+			return !isNilConst(w.Call.Args[0]) && c14neverNil(w.Call.Args[0], seen)
+		}
+		if calleeIs(w, "bytes", "Clone") || calleeIs(w, "slices", "Clone") {
+			// Clone(x) is nil only for a nil x; chunk payloads are sub-slices of the read buffer
+			return true
+		}
+		if callee := staticCallee(w); callee != nil && len(callee.Blocks) > 0 && callee.Signature.Results().Len() == 1 && len(seen) < 64 {
+			ok, n := true, 0
+			allInstrs(callee, func(in ssa.Instruction) {
+				if r, isRet := in.(*ssa.Return); isRet {
+					res := retResults(r)
+					if len(res) != 1 || !c14neverNil(res[0], seen) {
+						ok = false
+					}
+					n++
+				}
+			})
+			return ok && n > 0
+		}
+	case *ssa.Parameter:
+		return true // decided where the argument is produced (the fresh-copy rule lifts through parameters)
+	}
+	return false
+}
+
 func c14lenArg(v ssa.Value) ssa.Value {
 	call, ok := c14strip(v).(*ssa.Call)
 	if !ok || !isBuiltinCall(call, "len") {
@@ -1958,6 +2008,10 @@ func (x *c14ctx) r5(tab *c14mapUse) {
 		// ---- fresh full copy
 		fresh, why := x.freshCopy(St.Val, St, 0)
 		c.Req(fresh, base+":fresh-copy", r5, p.InstrPos(St), why+" (the read buffer is reused by the next ReadFrom: earlier chunks are overwritten, which corrupts only some arrival orders)")
+		// the slot's occupancy marker is `!= nil` (empty-slot guard above): the
+		// stored copy must be non-nil even for a zero-length chunk
+		c.Req(c14neverNil(St.Val, map[ssa.Value]bool{}), base+":stored-copy-never-nil", r5, p.InstrPos(St),
+			"the stored copy can be nil for an empty chunk (append to a nil slice yields nil when nothing is appended) while `chunks[idx] == nil` is the empty-slot test: a duplicated empty chunk is counted again and the message completes truncated")
 
 		// ---- received++ exactly with the store
 		isInc := func(in ssa.Instruction) bool {
